@@ -528,4 +528,31 @@ example : ∃ s, runLog step (init 4 2 (fun a => a % 2 + 1) true true 2) example
   refine ⟨_, rfl, ?_⟩
   decide
 
+/-- C14p: a callback that destroys itself from inside its body (nested activity `2 = 0 + K`):
+    the destructor takes the own-thread branch, sets `is_removed`, returns without waiting;
+    request_stop skips the finished store and completes -/
+def selfDestroyLog : List Ev :=
+  [.inv 0 (.reg 0), .load 0 false false 2, .acq 0, .push 0 0 false, .ret 0 false,
+   .inv 0 .rs, .load 0 false false 2, .acq 0, .deq 0 0 false, .preExec 0 0, .cbBegin 0 0,
+   .inv 2 (.unreg 0), .load 2 false true 2, .acq 2, .unlink 2 0 false, .selfChk 2 0 true true, .ret 2 false,
+   .cbEnd 0 0, .finStore 0 0 true, .load 0 false true 2, .acq 0, .rsDone 0, .ret 0 true]
+
+example : ∃ s, runLog step (init 4 2 (fun a => a % 2 + 1) true true 2) selfDestroyLog = some s ∧
+    s.life 0 = .dead ∧ s.runs 0 = 1 ∧ s.rsTrue = 1 ∧ (∀ a, a < 4 → s.pc a = .idle) := by
+  refine ⟨_, rfl, ?_⟩
+  decide
+
+/-- C14p: the destructor on another thread takes the waiting branch, `stop.waited` is rejected
+    while the body runs and accepted after the finished store -/
+def otherThreadWaitsLog : List Ev :=
+  [.inv 0 (.reg 0), .load 0 false false 2, .acq 0, .push 0 0 false, .ret 0 false,
+   .inv 0 .rs, .load 0 false false 2, .acq 0, .deq 0 0 false, .preExec 0 0, .cbBegin 0 0,
+   .inv 1 (.unreg 0), .load 1 false true 2, .acq 1, .unlink 1 0 false, .selfChk 1 0 false false]
+
+example : ∃ s, runLog step (init 4 2 (fun a => a % 2 + 1) true true 2) otherThreadWaitsLog = some s ∧
+    s.pc 1 = .wait 0 ∧ s.pc 0 = .body 0 false ∧ step s (.waited 1 0) = none ∧
+    (runLog step s [.cbEnd 0 0, .finStore 0 0 false, .waited 1 0, .ret 1 false]).isSome = true := by
+  refine ⟨_, rfl, ?_⟩
+  decide
+
 end PikaVerif.C14
